@@ -202,9 +202,15 @@ pub struct TreeLeaf {
 }
 
 pub fn enumerate_recorded(prog: &Arc<Prog>, cap: u64, config: Config, opts: Opts, max_depth: Option<usize>, max_failing: u64) -> Option<Vec<TreeLeaf>> {
+    enumerate_recorded_with_stream(prog, cap, config, opts, max_depth, max_failing, vec![])
+}
+
+/// `stream`: the values the enumerator serves for the first draws of every execution
+pub fn enumerate_recorded_with_stream(prog: &Arc<Prog>, cap: u64, config: Config, opts: Opts, max_depth: Option<usize>, max_failing: u64, stream: Vec<u64>) -> Option<Vec<TreeLeaf>> {
     let mut failing = 0u64;
     let st = EnumScheduler::fresh_state();
     st.lock().unwrap().max_depth = max_depth;
+    st.lock().unwrap().draw_stream = stream;
     let mut leaves = vec![];
     loop {
         let before = st.lock().unwrap().executions;
